@@ -11,18 +11,26 @@ FUNCS = [M + ":Vmap." + m for m in ("_static_broadcast_dim_length", "simulate", 
                                     "edit_index", "edit", "assess")] + [M + ":VmapTrace.build", M + ":VmapTrace.get_retval"]
 
 
-def setup(E):
+AXIS = {"axis": 0}      # mapped axis of the first argument (schematic: 0 and 1)
+
+
+def setup(E, axis=0):
+    AXIS["axis"] = axis
     g = G(E)
-    vm = E.new(M + ":Vmap", gen_fn=g, in_axes=(0, None))
+    vm = E.new(M + ":Vmap", gen_fn=g, in_axes=(axis, None))
     xs, c = E.opaque("xs", "array"), E.opaque("c")
     E.assume(E.I.T.d_primal(c.t) == c.t)          # argument values carry no Diff leaves
-    n = E.ctx.fn("axis0_len", U, E.z3.IntSort())(xs.t)
+    Z = E.z3.IntSort()
+    n = E.ctx.fn("axis0_len", U, Z)(xs.t) if axis == 0 else E.ctx.fn("axis_len", U, Z, Z)(xs.t, E.z3.IntVal(axis))
     return vm, g, (xs, c), n
 
 
 def elem_args(E, args, i):
     xs, c = args
-    return (UVal(E.ctx.fn("axis0_index", U, E.z3.IntSort(), U)(xs.t, i), "array"), c)
+    Z = E.z3.IntSort()
+    if AXIS["axis"] == 0:
+        return (UVal(E.ctx.fn("axis0_index", U, Z, U)(xs.t, i), "array"), c)
+    return (UVal(E.ctx.fn("axis_index", U, Z, Z, U)(xs.t, E.z3.IntVal(AXIS["axis"]), i), "array"), c)
 
 
 def subkey(E, k, n, i):
@@ -137,8 +145,30 @@ def t_edit_update(E):
 
 @task("vmap.edit_index", props=["C01", "C05", "C06", "C11"], functions=FUNCS)
 def t_edit_index(E):
+    _edit_index(E, 0, "")
+
+
+@task("vmap.edit_index.axis1", props=["C11"], functions=FUNCS)
+def t_edit_index_axis1(E):
+    """same contract with the first argument mapped along axis 1 (in_axes=(1, None))"""
+    _edit_index(E, 1, "[in_axes=(1,None)]")
+
+
+@task("vmap.simulate.axis1", props=["C11"], functions=FUNCS)
+def t_simulate_axis1(E):
     z3, T = E.z3, E.I.T
-    vm, g, args, n = setup(E)
+    vm, g, args, n = setup(E, axis=1)
+    k = key(E)
+    tr = E.method(vm, "simulate", k, args)
+    sim = lambda i: UVal(T.sim(g.t, subkey(E, k, n, i), E.I.to_u(elem_args(E, args, i))), "Trace")
+    E.prove("C11.Vmap.simulate.element_i_is_an_independent_call_on_slice_i[in_axes=(1,None)]",
+            forall_i(E, n, lambda i: E.eq(tr.fields["inner"].at(i), sim(i))))
+    E.prove("C11.Vmap.simulate.length_is_the_mapped_axis[in_axes=(1,None)]", E.eq(tr.fields["dim_length"], SInt(n, True)))
+
+
+def _edit_index(E, axis, sfx):
+    z3, T = E.z3, E.I.T
+    vm, g, args, n = setup(E, axis=axis)
     k = key(E)
     old, inner = an_old_trace(E, vm, g, args, n)
     idx = E.int("idx", conc=False)
@@ -150,21 +180,21 @@ def t_edit_index(E):
     ad_idx = E.call(INC + ":Diff.no_change", elem_args(E, args, idx.t))
     ef = lambda f: f(g.t, k.t, inner.at(idx.t).t, req.t, E.I.to_u(ad_idx))
     E.cover("vmap.edit_index.reached")
-    E.prove("C11.Vmap.edit_index.element_idx_is_edited", E.eq(new.fields["inner"].at(idx.t), UVal(ef(T.edit_tr), "Trace")))
-    E.prove("C11.Vmap.edit_index.frame_other_elements_unchanged", forall_i(
+    E.prove("C11.Vmap.edit_index.element_idx_is_edited_on_its_argument_slice" + sfx, E.eq(new.fields["inner"].at(idx.t), UVal(ef(T.edit_tr), "Trace")))
+    E.prove("C11.Vmap.edit_index.frame_other_elements_unchanged" + sfx, forall_i(
         E, n, lambda i: E.Implies(i != idx.t, E.eq(new.fields["inner"].at(i), inner.at(i)))))
-    E.prove("C11.Vmap.edit_index.weight_is_the_element_weight", E.eq(w, SReal(ef(T.edit_w))))
-    E.prove("C06.Vmap.edit_index.bwd_is_index_request_of_element_bwd", E.And(
+    E.prove("C11.Vmap.edit_index.weight_is_the_element_weight" + sfx, E.eq(w, SReal(ef(T.edit_w))))
+    E.prove("C06.Vmap.edit_index.bwd_is_index_request_of_element_bwd" + sfx, E.And(
         isinstance(bwd, Obj) and bwd.cls.name == "IndexRequest", E.eq(fld(E, bwd, "idx"), idx),
         E.I.to_u(fld(E, bwd, "request")) == ef(T.edit_bwd)))
     # score' = score - s_idx + s'_idx   (sum over the updated batch, linear rule with the frame clause)
     old_s, new_s = E.method(old, "get_score"), E.method(new, "get_score")
     E.I.sum_point_update(new_s, old_s, idx.t)      # lemma instance (premise proved from the frame of .at[idx].set)
-    E.prove("C11.Vmap.edit_index.score_updates_only_the_edited_term", E.eq(
+    E.prove("C11.Vmap.edit_index.score_updates_only_the_edited_term" + sfx, E.eq(
         new_s, SReal(old_s.t - T.tr_score(inner.at(idx.t).t) + T.tr_score(ef(T.edit_tr)))))
-    E.prove("C01.Vmap.edit_index.wf", wf(E, vm, new))
-    E.prove("C05.Vmap.edit_index.args_unchanged", E.eq(E.method(new, "get_args"), args))
-    E.refutable("vmap.edit_index", E.eq(w, 0.0))
+    E.prove("C01.Vmap.edit_index.wf" + sfx, wf(E, vm, new))
+    E.prove("C05.Vmap.edit_index.args_unchanged" + sfx, E.eq(E.method(new, "get_args"), args))
+    E.refutable("vmap.edit_index" + sfx, E.eq(w, 0.0))
 
 
 @task("vmap.project", props=["C10", "C11"], functions=FUNCS)
